@@ -755,6 +755,55 @@ Section Gzip.
     match unzip bs with Some raw => meta_unmarshal raw | None => None end.
 End Gzip.
 
+(* ---- the descriptors the round trip is stated for ---- *)
+
+(* Go maps have pairwise distinct keys; the type number of a constant value fits 32 bits (it is a
+   Go int64 written with WriteI32) *)
+Definition smap_ok {A} (m : smap A) : bool := nodupb (map fst m).
+Definition extra_ok (e : extra_t) : bool := match e with Some m => smap_ok m | None => true end.
+Fixpoint tdesc_ok (t : tdesc) : bool :=
+  match t with
+  | TDesc _ _ k v ex =>
+      match k with Some x => tdesc_ok x | None => true end &&
+      match v with Some x => tdesc_ok x | None => true end && extra_ok ex
+  end.
+Fixpoint cvdesc_ok (c : cvdesc) : bool :=
+  match c with
+  | CVD ty _ _ _ _ l m _ ex =>
+      in_srangeb 4 ty &&
+      match l with
+      | Some l => (fix go (l : list cvdesc) : bool := match l with [] => true | x :: r => cvdesc_ok x && go r end) l
+      | None => true end &&
+      match m with
+      | Some m => (fix go (l : list (cvdesc * cvdesc)) : bool :=
+                     match l with [] => true | (k, v) :: r => cvdesc_ok k && cvdesc_ok v && go r end) m
+      | None => true end &&
+      extra_ok ex
+  end.
+Definition fielddesc_ok (f : fielddesc) : bool :=
+  tdesc_ok (fld_type f) && match fld_default f with Some c => cvdesc_ok c | None => true end &&
+  smap_ok (fld_annos f) && extra_ok (fld_extra f).
+Definition structdesc_ok (s : structdesc) : bool :=
+  forallb fielddesc_ok (sd_fields s) && smap_ok (sd_annos s) && extra_ok (sd_extra s).
+Definition enumvaluedesc_ok (v : enumvaluedesc) : bool := smap_ok (evd_annos v) && extra_ok (evd_extra v).
+Definition enumdesc_ok (e : enumdesc) : bool :=
+  forallb enumvaluedesc_ok (ed_values e) && smap_ok (ed_annos e) && extra_ok (ed_extra e).
+Definition typedefdesc_ok (t : typedefdesc) : bool :=
+  tdesc_ok (tdd_type t) && smap_ok (tdd_annos t) && extra_ok (tdd_extra t).
+Definition methoddesc_ok (m : methoddesc) : bool :=
+  match md_response m with Some t => tdesc_ok t | None => true end &&
+  forallb fielddesc_ok (md_args m) && smap_ok (md_annos m) && forallb fielddesc_ok (md_throws m) && extra_ok (md_extra m).
+Definition servicedesc_ok (s : servicedesc) : bool :=
+  forallb methoddesc_ok (svd_methods s) && smap_ok (svd_annos s) && extra_ok (svd_extra s).
+Definition constdesc_ok (c : constdesc) : bool :=
+  tdesc_ok (cd_type c) && cvdesc_ok (cd_value c) && smap_ok (cd_annos c) && extra_ok (cd_extra c).
+Definition fdesc_ok (d : fdesc) : bool :=
+  smap_ok (fdc_includes d) && smap_ok (fdc_namespaces d) &&
+  forallb servicedesc_ok (fdc_services d) && forallb structdesc_ok (fdc_structs d) &&
+  forallb structdesc_ok (fdc_exceptions d) && forallb enumdesc_ok (fdc_enums d) &&
+  forallb typedefdesc_ok (fdc_typedefs d) && forallb structdesc_ok (fdc_unions d) &&
+  forallb constdesc_ok (fdc_consts d) && extra_ok (fdc_extra d).
+
 (* ================================================================ 5. registry and lookups *)
 
 (* GlobalDescriptor.globalFD: file path -> descriptor.  A list whose paths are pairwise distinct
